@@ -38,25 +38,25 @@ CHECKS = {
             "All subsets (size <=4) of a pool covering the naming conventions (charges, ortho/para, surface under two prefixes, grains with groups, excited and cyclic species, both electron spellings), entered through reactions and through required_species, x 4 back-ends: macros are a bijection onto 0..NSPECIES-1, identifiers legal and distinct, two spellings give one slot, and naunet_macros.h, constant_indexes.py, constants.py, the NetworkConfiguration summary, the render command's summary and naunet_enzo.h (A_ table and ENZO_NSPECIES) agree in count and order.",
             "Species identity of the reference is stated in the evidence assumptions; render-command and Enzo artefacts are checked on an index-determined slice.", "DESIGN.md §2 C09"),
     "C10": ("exploration", "exhaustive enumeration of the configuration space; g++ -fsyntax-only of every rendered translation unit against an API shim",
-            "format-set x grain model x back-end x shielding tables x thermal: each configuration renders a probe network holding one reaction of every type the combination can produce (combinations refused in Python are recorded) and every src/*.cpp must pass g++ without diagnostics about undeclared or redefined names.",
+            "format-set x grain model x back-end x shielding tables x thermal: each configuration renders a probe network holding one reaction of every type the combination can produce (combinations refused in Python are recorded) and every src/*.cpp must pass g++ without diagnostics about undeclared or redefined names; every data line of every probe file is also rendered alone (ice/grain lines under each dust model), so that a symbol must be declared by the reaction that uses it.",
             "SUNDIALS/Boost are a hand-written shim; a diagnostic about a shim name is a harness error. Only name diagnostics are judged. PYMODULE and CUDA code are not compiled.", "DESIGN.md §2 C10"),
     "C11": ("exploration", "exhaustive enumeration of process x dust model x species x entry path; compiled EvalRates vs independent transcription of the model formulae",
-            "Every (process, dust model) pair is enumerated for species that differ in mass number, binding energy and yield, through Leeds lines, UCLCHEM lines and the native API, with and without user binding-energy/yield tables and grain species; the rendered EvalRates is compiled by g++ and must equal the transcription of the documented model on (Tgas,Tdust) x (mantle present / absent); the model x process matrix must refuse what a model does not implement; eb_<alias> constants must carry the reacting species' own binding energy.",
+            "Every (process, dust model) pair is enumerated for species that differ in mass number, binding energy and yield, through Leeds lines, UCLCHEM lines and the native API, with and without user binding-energy/yield tables and grain species; the rendered EvalRates is compiled by g++ and must equal the transcription of the documented model on (Tgas,Tdust) x (mantle present / absent); the model x process matrix must refuse what a model does not implement; eb_<alias> constants must carry the reacting species' own binding energy; for the threshold-gated processes the thresholds are also placed exactly on, one ulp below and one ulp above each binding energy.",
             "Numeric prefactors and coverage factors are those of the implementations the classes cite (Walsh+2015, UCLCHEM v1.3) - listed in the evidence assumptions.", "DESIGN.md §2 C11"),
     "C12": ("exploration", "bounded-exhaustive enumeration of expression trees of the translator's grammar; Fortran-semantics evaluator vs C-semantics evaluation of the emitted text",
-            "All binary expression trees with <=3 leaves over a 12-leaf alphabet (thorough: + all 4-leaf trees over 4 leaves), printed with minimal and full parentheses, function wrappers, abundance references, near-miss inputs and all 3544 bundled KROME rate expressions are translated by the real KROMEReaction.rateexpr; the emitted C (read by E4 with C typing) must have the value my Fortran evaluator assigns to the source on 5 valuations, and every n(idx_X) must resolve to X's macro.",
+            "All binary expression trees with <=3 leaves over a 12-leaf alphabet (thorough: + all 4-leaf trees over 4 leaves), printed with minimal and full parentheses, function wrappers, abundance references, near-miss inputs and all 3544 bundled KROME rate expressions are translated by the real KROMEReaction.rateexpr; the emitted C (read by E4 with C typing) must have the value my Fortran evaluator assigns to the source on 5 valuations, and every n(idx_X) must resolve to X's macro (all one-letter element indices x charge suffixes x three contexts are enumerated separately).",
             "Own Fortran evaluator is the reference (precedence, right-assoc **, integer typing). Disagreements are classified by which wrong reading reproduces the C value.", "DESIGN.md §2 C12"),
     "C13": ("exploration", "bounded-exhaustive enumeration of networks x index patterns x modifier key subsets; differential (with/without modifier, entry path vs entry path)",
-            "Networks of 2-4 reactions under five index patterns (distinct, shared, unindexed -> re-indexed, mixed, zero-based), every subset of (present indices + one absent index) as rate-modifier keys, four ODE-modifier shapes: the rendering with modifiers may differ from the rendering without exactly at the targeted rate statements and by exactly factor x product of abundances on the named species; a slice of cases goes through Network.export -> render and init -> render in fresh processes and must give identical rate text, RHS and Jacobian polynomials.",
+            "Networks of 2-4 reactions under five index patterns (distinct, shared, unindexed -> re-indexed, mixed, zero-based), every subset of (present indices + one absent index) as rate-modifier keys, four ODE-modifier shapes: the rendering with modifiers may differ from the rendering without exactly at the targeted rate statements and by exactly factor x product of abundances on the named species; a slice of cases goes through Network.export -> render and init -> render in fresh processes and must give identical rate text, RHS and Jacobian polynomials; every rate statement must write the slot of its own reaction (one statement per reaction, position order).",
             "Effective index of an unindexed network = position (as TemplateLoader.render re-indexes). Values with ',' are outside what init's option grammar can express.", "DESIGN.md §2 C13"),
     "C14": ("model_checking", "explicit-state breadth-first search over operation histories on real Network objects, states de-duplicated by a canonical key, reference model compared on every transition",
-            "BFS over all histories of a 24-operation menu (add x7, add from file, remove by index/list/instance/instances, three allowed lists, two required lists, de-duplicate, append depletion/desorption, reindex) to depth 3 (quick) / 5 (thorough) and of a reduced 10-operation menu to depth 7; every transition calls the real method on a fresh Network replayed from the history and compares reaction list, species, sources/sinks, where_species, allowed-filter and index macros (vs a one-shot construction) with a boring reference model. Plus allowed-setter vs constructor on all add sequences <=3 and the extend command on 3 inputs x 8 flag sets x 5 species options.",
+            "BFS over all histories of a 24-operation menu (add x7, add from file, remove by index/list/instance/instances, three allowed lists, two required lists, de-duplicate, append depletion/desorption, reindex) to depth 3 (quick) / 5 (thorough) and of a reduced 10-operation menu to depth 7; every transition calls the real method on a fresh Network replayed from the history and compares reaction list, species, sources/sinks, where_species, allowed-filter and index macros (vs a one-shot construction) with a boring reference model; every history is also executed with all public observers called after every operation and must end in the same observable state. Plus allowed-setter vs constructor on all add sequences <=3 and the extend command on 3 inputs x 8 flag sets x 5 species options.",
             "Canonical key includes the cached species sets, so merged states have equal futures. Reaction identity classes of the pool are stated in the evidence.", "DESIGN.md §2 C14"),
     "C15": ("exploration", "bounded-exhaustive enumeration of reaction lists x comparison modes; O(n^2) pairwise reference",
             "All lists of length <=5 (quick <=4) over a pool of 8 reactions (two bases; permuted reactants, permuted products, other window, other type, unknown type) x modes default/brief/minimal/short: reported indices, reported reactions and first members equal the pairwise reference; removing the reported reactions leaves one member per class and a second call reports nothing.",
             "Lists on which the default-mode relation is not transitive (UNKNOWN type bridging two known types) are enumerated but not judged.", "DESIGN.md §2 C15"),
     "C16": ("exploration", "bounded-exhaustive enumeration of species sets; exact rational evaluation of the emitted renormalisation text and exact solve",
-            "All species sets {H} + up to 4 of 12 others (ions, isotopologues, multi-element molecules, ice, grains, electrons) x positive abundance vectors x reference ratios: InitRenorm, RenormAbundance and GetElementAbund text is read into exact polynomials, the linear system is solved over Q, and afterwards every element/H-nuclei ratio equals the reference, electrons are untouched and matching ratios give the identity; a literal division by zero, a non-C factor or a subscript outside NELEMENTS/NEQUATIONS is a violation. Each set is built twice (sorted slot order; a linking reaction that moves the last-sorted species - the electron - to slot 0). A slice is compiled: the real SetReferenceAbund (opt 0 with un-normalised references, opt 1) + Renorm against the shim's LU must land on the exact solution.",
+            "All species sets {H} + up to 4 of 12 others (ions, isotopologues, multi-element molecules, ice, grains, electrons) x positive abundance vectors x reference ratios: InitRenorm, RenormAbundance and GetElementAbund text is read into exact polynomials, the linear system is solved over Q, and afterwards every element/H-nuclei ratio equals the reference, electrons are untouched and matching ratios give the identity; a literal division by zero, a non-C factor or a subscript outside NELEMENTS/NEQUATIONS is a violation. Each set is built twice (sorted slot order; a linking reaction that moves the last-sorted species - the electron - to slot 0). A slice is compiled: the real SetReferenceAbund (opt 0 with un-normalised references, opt 1) + Renorm (called twice on one object) against the shim's LU must land on the exact solution.",
             "Exact arithmetic replaces the LU solve of SUNDIALS/uBLAS (equal up to rounding). Sets without atomic H are outside the generated Renorm (#ifdef IDX_ELEM_H).", "DESIGN.md §2 C16"),
     "C17": ("model_checking", "stateless exhaustive exploration of all interleavings of sequential client programs over the shared process-global tables, one fresh process per schedule; differential oracle against the client rendered alone",
             "Six clients chosen to write different values into the same global tables (KIDA/default lists, UCLCHEM project through RenderCommand with replacement + binding energies, Leeds with custom lists and prefix G, KROME with directives, API-built unindexed ice network with a rate modifier, KIDA with an upper-case element list and no replacement) each run a short program of atomic API calls (build; render / render twice / edit, where_species, render / CLI render); every interleaving of every pair (thorough: and triple) within the length bound is executed on the real code in a fresh process and every render must hash to the client's reference hash, which itself must agree across interpreter hash seeds, repeated renders and 'render, edit, render' vs 'edit, render'.",
@@ -65,7 +65,7 @@ CHECKS = {
             "Every line of C07's space (5 typed formats, 200 reactions per file) is read, written in the native format, read back and written again: reactions in order with multisets, window, type, index, source tag and printed-precision coefficients must be preserved and the second cycle must be byte-identical. For every gas-phase (format,type), a KROME rate and every (entry path, dust model, process), a one-reaction project is exported and re-rendered from its own files; both EvalRates are compiled by g++ and must evaluate equal, or the re-render must raise.",
             "Refusals and non-compiling re-renders are not violations (not silent). Physical values are set identically on both sides (zeta = zeta_cr, zeta_xr = 0).", "DESIGN.md §2 C18"),
     "C19": ("fault_enumeration", "stateless depth-first enumeration of integrator outcome sequences (choice vectors with prefix replay) compiled against the rendered Solve/HandleError with a scripted mock integrator",
-            "The rendered naunet.cpp (dense, sparse, odeint) is compiled with a mock integrator of y'=1, so the final state measures integrated time. Every sequence of outcomes within the pass alphabets - success, fail(flag, progress fraction) per CVode call at the offered positions of all five recovery levels, failing re-initialisation - is executed; on each: SUCCESS iff exactly dt was integrated and the last answer was a success, unrecoverable flags/failed re-init/level-5 failure give FAIL with the initial state logged, no integrator call after an unrecoverable flag, tout strictly increasing. Odeint: step counts around the budget and exceptions from the system function.",
+            "The rendered naunet.cpp (dense, sparse, a thermal network with NEQUATIONS = NSPECIES + 1, odeint) is compiled with a mock integrator of y'=1, so the final state of every equation measures integrated time. Every sequence of outcomes within the pass alphabets - success, fail(flag, progress fraction) per CVode call at the offered positions of all five recovery levels, failing re-initialisation - is executed; on each: SUCCESS iff exactly dt was integrated and the last answer was a success, unrecoverable flags/failed re-init/level-5 failure give FAIL with the initial state logged, no integrator call after an unrecoverable flag, tout strictly increasing. Odeint: step counts around the budget and exceptions from the system function.",
             "The mock reproduces the CVODE calling convention (tret = time reached, yout advanced), not its numerics. Failure positions are restricted per pass (stated in the evidence); a capped pass is reported as such. The cuSPARSE Solve is compiled for the host against an emulation of the CUDA/cuSPARSE/cuSOLVER names it touches, kernels stubbed.", "DESIGN.md §2 C19"),
     "C20": ("exploration", "pairwise-exhaustive enumeration of init option values around a base configuration; field comparison of the written TOML and byte comparison of CLI vs API renderings in sibling fresh processes",
             "Every init option alone over its value alphabet (lists with/without spaces, key:value and key=value tables, empty values, values containing the separator, prefixes, all legal and illegal solver triples) and all value pairs (quick: of the six interacting options; thorough: of all options) go through `naunet init --render`; the written naunet_config.toml must equal the requested description field by field and the rendered include/src/python trees must be byte-identical to the equivalent network rendered through the public API in a fresh process; bundled examples go through `naunet example`. Export clause: API networks over (element lists, allowed/required species, symbols, dust model, ice species, binding/yield overrides, cooling, shielding, modifiers, solver) singly and pairwise -> Network.export -> TOML fields vs the network -> `naunet render --force` inside the exported project -> same tree (RHS/Jacobian files compared as exact polynomials per slot, everything else byte for byte).",
